@@ -21,6 +21,7 @@ struct Srv : public HttpServer
 		vp_assert(req.method() == g_method, "handler observes the method sent");
 		vp_assert(req.path() == "/p q/r", "handler observes the decoded path");
 		vp_assert(req.query("k") == g_qv, "handler observes the query value");
+		vp_assert(req.query("p") == "a+b c&d", "handler observes a query value with encoded plus, space and ampersand exactly as meant");
 		vp_assert(req.header("X-Req") == g_hv && req.header("x-req") == g_hv, "handler observes the request header");
 		vp_assert(req.body().length() == g_reqlen, "handler observes the body length sent");
 		for (int i = 0; i < g_reqlen && i < req.body().length(); i++) vp_assert(req.body()[i] == g_reqbody[i], "handler observes the body bytes sent");
@@ -58,7 +59,7 @@ extern "C" void h_exchange(void)
 	g_qv[0] = (char)nondet_u8(); vp_assume((g_qv[0] >= 'a' && g_qv[0] <= 'z') || (g_qv[0] >= '0' && g_qv[0] <= '9')); g_qv[1] = 0;
 	if (g_kind == 3 || g_kind == 5) { File f("body.bin", File::WRITE); f.write(g_respbody, g_resplen); }
 	vp_sock_set_server(server_side);
-	String url("http://host.example/p%20q/r?k="); url += (const char*)g_qv;
+	String url("http://host.example/p%20q/r?p=a%2Bb+c%26d&k="); url += (const char*)g_qv;
 	HttpRequest req(g_method, url);
 	req.setHeader("X-Req", g_hv);
 	if (g_kind == 5) { g_rb = vp_param(3); g_re = vp_param(4); req.setHeader("Range", String(0, "bytes=%i-%i", g_rb, g_re)); }
